@@ -11,6 +11,7 @@ import (
 	"runtime/pprof"
 	"strconv"
 	"strings"
+	"unicode/utf8"
 
 	"github.com/cloudwego/thriftgo/fieldmask"
 
@@ -239,10 +240,20 @@ func checkJSON(m *fieldmask.FieldMask, steps []string, aps [][]string, selOK boo
 		return fs
 	}
 	t3, _, _ := marshalText(um)
+	badUtf8 := false
+	for _, p := range aps {
+		for _, st := range p {
+			if st[0] == 's' && st != "s-" && !utf8.ValidString(vl.UnHex(st[1:])) {
+				badUtf8 = true
+			}
+		}
+	}
 	cls := func(k string) string {
 		switch {
 		case starKey:
 			return "json:star-key-becomes-wildcard"
+		case badUtf8:
+			return "json:non-utf8-key-replaced"
 		case bytes.Contains(t1, []byte(`"children":[]`)):
 			return "json:empty-children-becomes-all"
 		}
@@ -773,7 +784,8 @@ func replay(file string) error {
 
 // ---------------------------------------------------------------- extract: probe the panic sites
 
-const probeIDL = `struct S { -1: string neg, 1: string a, 2: list<string> l, 3: map<string,S> m }`
+const probeIDL = `typedef S T
+struct S { -1: string neg, 1: string a, 2: list<string> l, 3: map<string,S> m, 4: T t }`
 
 func probe(f func()) (panicked bool) {
 	defer func() {
@@ -814,15 +826,38 @@ func extract() error {
 		{"foreachNilFd", func() { mk("$").ForEachChild(noop) }},
 		{"foreachInvalid", func() { mk().ForEachChild(noop) }},
 	}
+	// behavioural switches that are not panics (true = behaviour as found)
+	flags := []struct {
+		name string
+		f    func() bool
+	}{
+		{"litStall", func() bool { // lit() at a backslash: empty literal, no progress (seen in the error text only)
+			_, err := fieldmask.NewFieldMask(d, "$\\")
+			return err != nil && strings.Contains(err.Error(), "Lit() at")
+		}},
+		{"gpNoUnwrap", func() bool { return !mk("$.t.a").PathInMask(d, "$.t.a") }},
+		{"blackStar", func() bool {
+			m, err := fieldmask.Options{BlackListMode: true}.NewFieldMask(d, "$.l[*]")
+			if err != nil {
+				panic("probe: " + err.Error())
+			}
+			l, _ := m.Field(2)
+			_, ok := l.Int(3)
+			return ok
+		}},
+	}
 	var sb strings.Builder
 	sb.WriteString("import ThriftVerif.Lib.FieldMask\n")
-	sb.WriteString("/- GENERATED by `harness/cmd/c14 extract` (probes of the real fieldmask package); do not edit.\n   true = the site panics on the tree under test. -/\n")
+	sb.WriteString("/- GENERATED by `harness/cmd/c14 extract` (probes of the real fieldmask package); do not edit.\n   true = the site panics / the behaviour is as found on the tree under test. -/\n")
 	sb.WriteString("namespace Generated.C14\ndef sites : FieldMask.Sites :=\n  { ")
 	for i, s := range sites {
 		if i > 0 {
 			sb.WriteString(", ")
 		}
 		sb.WriteString(s.name + " := " + vl.LeanBool(probe(s.f)))
+	}
+	for _, fl := range flags {
+		sb.WriteString(", " + fl.name + " := " + vl.LeanBool(fl.f()))
 	}
 	sb.WriteString(" }\nend Generated.C14\n")
 	fmt.Print(sb.String())
